@@ -211,6 +211,9 @@ ChgS(k) == "!{ p.Chg(" \o ToString(k) \o ") }"
 (* st.paren: "full" parenthesises every composite operand; "min" relies on precedence
    (alternation < sequence < prefix < suffix).  Precedence levels: 0 alt, 1 seq, 2 prefix,
    3 suffix/primary.                                                                     *)
+\* an operand whose text would start with "{": after & or ! it would read as a predicate / state change
+RECURSIVE BraceFirst(_)
+BraceFirst(e) == e.op = "act" \/ (e.op \in {"opt", "star", "plus"} /\ BraceFirst(e.a))
 RECURSIVE RenderE(_, _, _), RenderList(_, _, _, _, _)
 Wrap(s, need) == IF need THEN "(" \o s \o ")" ELSE s
 RenderList(es, i, sep, st, lvl) ==
@@ -238,8 +241,8 @@ RenderE(e, st, lvl) ==
                             st.paren = "full" \/ lvl > 1)
     [] e.op = "alt" -> Wrap(RenderList(e.es, 1, st.sp \o "/" \o " ", st, IF st.paren = "full" THEN 3 ELSE 1),
                             st.paren = "full" \/ lvl > 0)
-    [] e.op = "and" -> Wrap("&" \o Wrap(RenderE(e.a, st, 3), e.a.op = "act"), lvl > 2)
-    [] e.op = "not" -> Wrap("!" \o Wrap(RenderE(e.a, st, 3), e.a.op = "act"), lvl > 2)
+    [] e.op = "and" -> Wrap("&" \o Wrap(RenderE(e.a, st, 3), BraceFirst(e.a)), lvl > 2)
+    [] e.op = "not" -> Wrap("!" \o Wrap(RenderE(e.a, st, 3), BraceFirst(e.a)), lvl > 2)
     [] e.op = "opt" -> Wrap(RenderE(e.a, st, 4) \o "?", lvl > 3)
     [] e.op = "star" -> Wrap(RenderE(e.a, st, 4) \o "*", lvl > 3)
     [] e.op = "plus" -> Wrap(RenderE(e.a, st, 4) \o "+", lvl > 3)
